@@ -1065,6 +1065,42 @@ func balanced(s string) bool {
 }
 
 // havocLocation makes one assignable location arbitrary.
+
+// nestedSel resolves a.b.c where a is a pointer and b, c are (nested) struct-valued fields:
+// returns the pointer value, the field index path, and the flattened component range inside the pointee.
+func (x *Exec) nestedSel(env *SpecEnv, n *ESel) (base *Value, path []int, off, cnt int, ok bool) {
+	inner, isSel := n.X.(*ESel)
+	bv := env.eval(n.X)
+	if isPointer(bv.T) {
+		st, isS := derefT(bv.T).Underlying().(*types.Struct)
+		if !isS {
+			return nil, nil, 0, 0, false
+		}
+		for i := 0; i < st.NumFields(); i++ {
+			if st.Field(i).Name() == n.Name {
+				o, c := x.eng.fieldRange(st, i)
+				return bv, []int{i}, o, c, true
+			}
+		}
+		return nil, nil, 0, 0, false
+	}
+	st, isS := bv.T.Underlying().(*types.Struct)
+	if !isSel || !isS {
+		return nil, nil, 0, 0, false
+	}
+	b, pth, o, _, ok2 := x.nestedSel(env, inner)
+	if !ok2 {
+		return nil, nil, 0, 0, false
+	}
+	for i := 0; i < st.NumFields(); i++ {
+		if st.Field(i).Name() == n.Name {
+			o2, c2 := x.eng.fieldRange(st, i)
+			return b, append(append([]int(nil), pth...), i), o + o2, c2, true
+		}
+	}
+	return nil, nil, 0, 0, false
+}
+
 func (fr *Frame) havocLocation(env *SpecEnv, a Expr, fc *FuncContract) {
 	x := fr.x
 	defer func() {
@@ -1080,6 +1116,17 @@ func (fr *Frame) havocLocation(env *SpecEnv, a Expr, fc *FuncContract) {
 	case *ESel:
 		base := env.eval(n.X)
 		if !isPointer(base.T) {
+			// nested struct-valued field of a pointee: p.a.b
+			if b, pth, _, _, ok := x.nestedSel(env, n); ok {
+				p := *x.ptrOf(b)
+				var ft types.Type = derefT(b.T)
+				for _, idx := range pth {
+					p.Path = append(append([]PathEl(nil), p.Path...), PathEl{Field: idx})
+					ft = ft.Underlying().(*types.Struct).Field(idx).Type()
+				}
+				x.Store(fr.cur, &p, fr.havocValue("asg", ft))
+				return
+			}
 			sfail("assigns %v: base is not a pointer", n.Name)
 		}
 		p := *x.ptrOf(base)
